@@ -12,6 +12,10 @@
 // the event callback and reads the monitor's snapshot after every delivery.
 // The expected jq values are computed with /usr/bin/jq (an oracle independent of gojq)
 // and handed to Coq as the case's oracle table.
+//
+// A second class of cases (Mode "start", start.go) does not call the handlers at all: objects
+// exist in the cluster before the monitor is created (loadExistedObjects), the monitor is
+// started and the REAL client-go shared informer makes every delivery (FactoryStore.Start).
 package c08
 
 import (
@@ -48,7 +52,9 @@ type Ev struct {
 	// "tombstone" = cache.DeletedFinalStateUnknown{Key, Obj: object} as client-go's
 	// DeltaFIFO.Replace makes it for an object that is missing from a relist
 	Form string `json:"form,omitempty"`
-	// "relist" = the delivery belongs to the batch a relist after a broken watch produces
+	// "relist" = the delivery belongs to the batch a relist after a broken watch produces;
+	// "existing" (start cases only) = no delivery at all: the object is in the cluster
+	// before the monitor is created
 	Batch string `json:"batch,omitempty"`
 }
 
@@ -61,6 +67,17 @@ type Input struct {
 	Family     string   `json:"family"`
 	States     []State  `json:"states"`
 	History    []Ev     `json:"history"`
+	// Mode "" : the monitor is created on an empty cluster and the harness calls the
+	// informer's handler methods itself, one call per History entry.
+	// Mode "start": the History is a script for the CLUSTER (see start.go): the entries with
+	// Batch "existing" are created before the monitor, then the monitor is created
+	// (loadExistedObjects) and started (FactoryStore.Start: real client-go shared informer),
+	// then the other entries are applied to the cluster one by one; every delivery is made
+	// by the shared informer.
+	Mode string `json:"mode,omitempty"`
+	// start cases: another monitor with the same FactoryIndex is already running, so that
+	// FactoryStore.Start joins a started shared informer (AddEventHandler replays its store)
+	Joins bool `json:"joins,omitempty"`
 }
 
 type Fired struct {
@@ -73,10 +90,20 @@ type CacheEntry struct {
 	State int `json:"state"`
 }
 
+// Seen: what the harness saw of one delivery on the informer itself (start cases).
+type Seen struct {
+	Type string `json:"type"` // from the informer's Added/Modified/Deleted counters
+	Id   int    `json:"id"`   // dense resource id of the cache entry that was replaced / removed
+}
+
 type StepObs struct {
+	Seen  *Seen           `json:"seen,omitempty"`
 	Fired []Fired         `json:"fired"`
 	FR    json.RawMessage `json:"fr,omitempty"` // FilterResult (absent = nil)
 	Cache []CacheEntry    `json:"cache"`
+	// for the reader of a replay file only: the objects of this step (fired events, cache)
+	// that are none of the case's states ("state": 999), as JSON text
+	Unknown []string `json:"objects_that_are_no_state_of_the_case,omitempty"`
 }
 
 type Answer struct {
@@ -88,6 +115,12 @@ type Obs struct {
 	Steps   []StepObs `json:"steps"`
 	Answers []Answer  `json:"answers"` // /usr/bin/jq on every state (empty without a filter)
 	Err     string    `json:"err,omitempty"`
+	// cachedObjects right after the monitor's creation (loadExistedObjects)
+	Cache0    []CacheEntry `json:"cache0"`
+	CreateErr string       `json:"create_err,omitempty"` // CreateInformers failed
+	// start cases: the resource ids of the deliveries the shared informer made at its start
+	// (one per existing object is expected), in the order they were seen
+	Replay []int `json:"replay,omitempty"`
 }
 
 const unknownState = 999
@@ -201,6 +234,9 @@ func Run(in Input) Obs {
 	}
 	ctx, cancel := context.WithCancel(context.Background())
 	defer cancel()
+	if in.Mode == modeStart {
+		return runStart(ctx, in, mc)
+	}
 	ms := metricstorage.NewMetricStorage(ctx, "c08_", true, log.NewNop())
 	// the monitor as the operator builds it (NewMonitor + CreateInformers: one informer for
 	// all namespaces, initial list of the empty fake cluster), events unlocked, not started:
@@ -216,6 +252,10 @@ func Run(in Input) Obs {
 		return o
 	}
 	var handler cache.ResourceEventHandler = vm.M.ResourceInformers[0]
+	o.Cache0 = []CacheEntry{}
+	for range vm.M.Snapshot() {
+		o.Cache0 = append(o.Cache0, CacheEntry{Id: unknownState, State: unknownState}) // empty cluster: nothing expected
+	}
 	vm.M.EnableKubeEventCb()
 	taken := 0
 
@@ -332,13 +372,29 @@ func Render(in Input, obs *Obs, crash string) core.Case {
 	answers := core.CoqList(o.Answers, func(a Answer) string {
 		return fmt.Sprintf("(%s, %s)", core.CoqList(a.Outs, func(r json.RawMessage) string { return coqJSONText(r) }), core.CoqBool(a.Failed))
 	})
-	hist := core.CoqList(in.History, func(e Ev) string {
+	// the history as the model and the specification see it: for a start case the informer's
+	// replay of the existing objects (in the order the informer was seen to deliver) and the
+	// watch events of the cluster operations; otherwise the handler calls themselves
+	history := in.History
+	var listed []int
+	real := in.Mode == modeStart
+	var pl plan
+	if real {
+		pl = startPlan(in)
+		listed = pl.listed()
+		history = append(pl.replay(o.Replay), pl.ops...)
+	}
+	hist := core.CoqList(history, func(e Ev) string {
 		form := "FObject"
 		if e.Form == formTombstone {
 			form = "FTombstone"
 		}
 		return fmt.Sprintf("(%s, %d, %s)", coqType(e.Type), e.State, form)
 	})
+	cache0 := "None"
+	if obs != nil && crash == "" && o.CreateErr == "" && o.Cache0 != nil {
+		cache0 = "(Some " + core.CoqList(o.Cache0, func(c CacheEntry) string { return fmt.Sprintf("(%d, %d)", c.Id, c.State) }) + ")"
+	}
 	steps := o.Steps
 	if crash != "" {
 		// keep what is known; the driver reports the crash as a direct finding and the
@@ -350,7 +406,11 @@ func Render(in Input, obs *Obs, crash string) core.Case {
 		if s.FR != nil {
 			fr = "(Some " + coqJSONText(s.FR) + ")"
 		}
-		return fmt.Sprintf("(mkI %s %s %s)",
+		seen := "None"
+		if s.Seen != nil {
+			seen = fmt.Sprintf("(Some (%s, %d))", coqType(s.Seen.Type), s.Seen.Id)
+		}
+		return fmt.Sprintf("(mkI %s %s %s %s)", seen,
 			core.CoqList(s.Fired, func(f Fired) string {
 				if f.Type == "?" {
 					return fmt.Sprintf("(Deleted, %d)", unknownState)
@@ -360,7 +420,8 @@ func Render(in Input, obs *Obs, crash string) core.Case {
 			core.CoqList(s.Cache, func(c CacheEntry) string { return fmt.Sprintf("(%d, %d)", c.Id, c.State) }))
 	})
 	c := core.Case{}
-	c.Coq = fmt.Sprintf("(mkCase %s %s\n  %s\n  %s\n  %s\n  %s)", types, core.CoqBool(in.Filter != ""), states, answers, hist, obsl)
+	c.Coq = fmt.Sprintf("(mkCase %s %s\n  %s\n  %s\n  %s %s %s\n  %s\n  %s)", types, core.CoqBool(in.Filter != ""), states, answers,
+		core.CoqBool(real), core.CoqList(listed, core.CoqN), cache0, hist, obsl)
 	c.JSON = o
 	kb, _ := json.Marshal(in)
 	c.Key = string(kb)
@@ -376,7 +437,13 @@ func Render(in Input, obs *Obs, crash string) core.Case {
 	fired, suppressed, repeats, deletes := 0, 0, 0, 0
 	tombstones, tombstonesOther, relists := 0, 0, 0
 	lastState := map[int]int{}
-	for i, e := range in.History {
+	for _, st := range listed {
+		lastState[in.States[st].Id] = st
+	}
+	for i, e := range history {
+		if e.State < 0 || e.State >= len(in.States) {
+			continue
+		}
 		id := in.States[e.State].Id
 		if e.Form == formTombstone {
 			if e.Type == "Deleted" {
@@ -459,9 +526,16 @@ func Render(in Input, obs *Obs, crash string) core.Case {
 	if nonObject && in.Filter != "" {
 		c.Tags = append(c.Tags, "result-not-a-single-object(F8 trigger)")
 	}
-	c.Tags = append(c.Tags, fmt.Sprintf("history:%02d+", len(in.History)/4*4))
+	c.Tags = append(c.Tags, fmt.Sprintf("history:%02d+", len(history)/4*4))
 	// non-trivial: at least 3 deliveries, both a fired and a silent delivery
-	c.Nontrivial = len(in.History) >= 3 && fired > 0 && suppressed > 0
+	c.Nontrivial = len(history) >= 3 && fired > 0 && suppressed > 0
+	if real {
+		c.Tags = append(c.Tags, pl.tags(in)...)
+		// a start case: at least one existing object was replayed and something else was delivered
+		c.Nontrivial = len(listed) >= 1 && len(history) >= 2 && len(o.Steps) == len(history)
+	} else {
+		c.Tags = append(c.Tags, "mode:harness-calls-the-handlers(informer not started)")
+	}
 	return c
 }
 
@@ -850,6 +924,9 @@ func Gen(r *core.Rng, tier string) ([]core.In[Input], bool) {
 	for _, c := range Corpus() {
 		ins = append(ins, core.In[Input]{Input: c, Stream: "corpus"})
 	}
+	for _, c := range StartCorpus() {
+		ins = append(ins, core.In[Input]{Input: c, Stream: "corpus"})
+	}
 	for _, c := range TriggerCorpus() {
 		ins = append(ins, core.In[Input]{Input: c, Stream: "trigger-F8"})
 	}
@@ -857,13 +934,14 @@ func Gen(r *core.Rng, tier string) ([]core.In[Input], bool) {
 		ins = append(ins, core.In[Input]{Input: c, Stream: "trigger-F16"})
 	}
 	g := &gen{r: r}
-	n, maxLen := 300, 8
+	n, maxLen, nStart := 300, 8, 126
 	switch tier {
 	case "thorough":
-		n, maxLen = 10000, 12
+		n, maxLen, nStart = 10000, 12, 3600
 	case "search":
-		n, maxLen = 2000, 8
+		n, maxLen, nStart = 2000, 8, 900
 	}
+
 	// filters whose result is a single object (and the no-filter case) form the main
 	// stream; non-object results (F8 trigger) are a separate stream at ~27 %, failing
 	// filters (F16 trigger) another one at ~8 %
@@ -909,11 +987,20 @@ func Gen(r *core.Rng, tier string) ([]core.In[Input], bool) {
 		}
 		ins = append(ins, core.In[Input]{Input: g.history(nIds, maxLen, f, subset, forms), Stream: stream})
 	}
+	// start cases (about 30 % of the quick tier): all 8 subsets of event types and "not
+	// configured" round robin
+	for i := 0; i < nStart; i++ {
+		subset := i % 9
+		if subset == 8 {
+			subset = -1
+		}
+		ins = append(ins, core.In[Input]{Input: g.startCase(subset), Stream: "start"})
+	}
 	return ins, false
 }
 
 var Driver = core.Driver[Input, Obs]{
 	Spec: core.Spec{Property: "C08", Imports: []string{"Json", "C08_Model", "C08_Spec", "C08_Corr"}, Corr: "C08_Corr", Triggers: []string{"F8", "F16"}, ShrinkKey: "history",
-		Rule: "scripted histories of watch events (1-3 objects; creations, single-field changes mostly outside a given projection, re-deliveries of the identical state, flips back to earlier states, deletes and re-creations) delivered to the resourceInformer of a real monitor (NewMonitor+CreateInformers on a fake cluster, not started) through its client-go handler methods OnAdd/OnUpdate/OnDelete; the handler's argument in both forms client-go uses: the *unstructured.Unstructured itself, or - in 3 cases of 5 for half of the Deleted deliveries - the cache.DeletedFinalStateUnknown tombstone (by value) that a real client-go DeltaFIFO.Replace produces for an object missing from a relist; in those cases also relist batches (15% per step: per object changed / deleted-and-recreated -> OnUpdate, unchanged -> OnUpdate or left out, new -> OnAdd, then tombstones for the missing ones); all 8 subsets of {Added,Modified,Deleted} and 'not configured' round robin; filter family: none, object paths, constructed objects (main stream), scalars, arrays, null, empty/select, multiple outputs (trigger-F8 stream, ~27%), failing filters (trigger-F16 stream, ~8%); /usr/bin/jq answers for every state are the model's oracle table; non-trivial = >= 3 deliveries with at least one fired and one silent delivery; distinct = distinct input text"},
-	Gen: Gen, Run: Run, Render: Render, PerShard: 250, Workers: 8, CaseTimout: 20 * time.Second,
+		Rule: "scripted histories of watch events (1-3 objects; creations, single-field changes mostly outside a given projection, re-deliveries of the identical state, flips back to earlier states, deletes and re-creations) delivered to the resourceInformer of a real monitor (NewMonitor+CreateInformers on a fake cluster, not started) through its client-go handler methods OnAdd/OnUpdate/OnDelete; the handler's argument in both forms client-go uses: the *unstructured.Unstructured itself, or - in 3 cases of 5 for half of the Deleted deliveries - the cache.DeletedFinalStateUnknown tombstone (by value) that a real client-go DeltaFIFO.Replace produces for an object missing from a relist; in those cases also relist batches (15% per step: per object changed / deleted-and-recreated -> OnUpdate, unchanged -> OnUpdate or left out, new -> OnAdd, then tombstones for the missing ones); all 8 subsets of {Added,Modified,Deleted} and 'not configured' round robin; filter family: none, object paths, constructed objects (main stream), scalars, arrays, null, empty/select, multiple outputs (trigger-F8 stream, ~27%), failing filters (trigger-F16 stream, ~8%); /usr/bin/jq answers for every state are the model's oracle table; non-trivial = >= 3 deliveries with at least one fired and one silent delivery; distinct = distinct input text. START CASES (stream 'start', 126 of the quick tier, and 8 corpus cases; harness/internal/c08/start.go): 0-3 objects exist in the fake cluster as an API server returns them (uid, resourceVersion, creationTimestamp, labels, sometimes generation and the last-applied annotation, 65% with metadata.managedFields); then the monitor is created (loadExistedObjects lists them; the snapshot right after is compared), unlocked and STARTED: the real client-go shared informer (FactoryStore.Start; in 30% another binding's monitor runs already and the informer is joined) makes every delivery - its replay of the existing objects, then 0-3 ordinary cluster operations (create, update with the resourceVersion moved / managedFields rewritten / bookkeeping only, delete, re-create); bindings: no jqFilter 35%, `.` 13%, `.metadata` 13%, `.data` 10%, del(.status), constructed objects over metadata / labels / data / managedFields; every subset of event types and 'not configured' round robin; each delivery is observed from the informer's own goroutine (handler that ran, object delivered, events fired, snapshot); the environment assumption of C08_start_redelivery_silent (the informer re-delivers exactly the listed objects, unchanged) is checked on every such case; non-trivial start case = at least one existing object replayed and at least two deliveries, all observed"},
+	Gen: Gen, Run: Run, Render: Render, PerShard: 60, Workers: 8, CaseTimout: 20 * time.Second,
 }
